@@ -268,3 +268,6 @@ def replay(cs, env):
     for c, cr in env.execute([cs]):
         judge(res, c, cr)
     return res
+
+
+RULE = RULE + ' Edits (mostly moves) of the same schema object between extractions, selections repeated after them.'
